@@ -163,7 +163,8 @@ pub fn select_connection(
     // ranking. Otherwise we fall back to the full pool — better to send
     // on a gated link than to drop the packet.
     let any_unconstrained = conns.iter().any(|c| {
-        !c.is_timed_out(current_time_ms)
+        c.connected
+            && !c.is_timed_out(current_time_ms)
             && c.is_schedulable()
             && !c.weak
             && !c.loss_degraded
@@ -183,6 +184,14 @@ pub fn select_connection(
         // available (see `apply_stall_gate`); hard-skip it like a timed-out link
         // rather than crushing its score, since a trickle would only add latency.
         if c.is_timed_out(current_time_ms) || !c.is_schedulable() || c.stall_gated {
+            continue;
+        }
+        // A disconnected link (e.g. after REG_ERR, before housekeeping tears it
+        // down) scores -1 x its multipliers, which can beat the -1.0 sentinel
+        // when a multiplier is below 1 and can never win hysteresis fairly.
+        // Classic mode never picks it (its -1 score does not beat the initial
+        // -1); skip it here too so both modes agree.
+        if !c.connected {
             continue;
         }
         // Hard-skip only the in-flight cap: it bounds queueing delay and
